@@ -310,7 +310,9 @@ func (t *WeightedMerkleTrie) SaveRoot() {
 func (t *WeightedMerkleTrie) Rollback() {
 	t.Lock()
 	defer t.Unlock()
-	if t.oldRoot.weight > 0 {
+	// the checkpoint is empty when it has no root hash or the hash of the empty
+	// trie: entries of weight 0 make a trie of total weight 0 that is not empty
+	if len(t.oldRoot.hash) > 0 && !bytes.Equal(t.oldRoot.hash, emptyState) {
 		t.root = &hashNode{
 			hash:   t.oldRoot.hash,
 			weight: t.oldRoot.weight,
@@ -461,7 +463,7 @@ func (t *WeightedMerkleTrie) unscheduleCreated() {
 }
 
 func (t *WeightedMerkleTrie) RollbackTrie(node Node) {
-	if node == nil || node.Weight() == 0 {
+	if node == nil || bytes.Equal(node.Hash(), emptyState) {
 		node = emptyNode
 	} else if bytes.Equal(node.Hash(), t.root.Hash()) {
 		return
